@@ -484,7 +484,7 @@ func features(h hist) []string {
 }
 
 func Run(c *core.Ctx) {
-	c.Rule = "histories = sequences of harness operations (subscribe free/stalled/healthy/already-cancelled, broadcast, burst, concurrent broadcasts, release a stalled write with or without error, a reader stalling / resuming, cancel, read registry size) executed on the real sse.Handler in a -race subprocess: named forced schedules, every sequence over two 8-operation alphabets up to the tier's length, random churn, random populations of stalled writers next to healthy readers with several broadcasts; plus stress runs of proxy.Handler behind httptest.Server with real HTTP clients. distinct non-trivial = distinct operation sequences in which a broadcast is issued while at least one client is registered; plus end-to-end scenarios (a timeline of browsers connecting / leaving by themselves and broadcasts via SendSSE, POST and NotifyProxy, drawn from the same PRNG) against the proxy started by generatecmd.StartProxy on a real TCP port, one browser per connection-age class (quick: about 1, 6, 12 and 20+ s old when the closing broadcasts are issued; thorough: up to 2.5 min), run in child processes of their own concurrently with the histories; every scenario is distinct and non-trivial"
+	c.Rule = "histories = sequences of harness operations (subscribe free/stalled/healthy/already-cancelled, broadcast, burst, concurrent broadcasts, release a stalled write with or without error, a reader stalling / resuming, cancel, read registry size) executed on the real sse.Handler in a -race subprocess: named forced schedules, every sequence over two 8-operation alphabets up to the tier's length, random churn, random populations of stalled writers next to healthy readers with several broadcasts; plus stress runs of proxy.Handler behind httptest.Server with real HTTP clients. distinct non-trivial = distinct operation sequences in which a broadcast is issued while at least one client is registered; plus end-to-end scenarios (a timeline of browsers connecting / leaving by themselves and broadcasts via SendSSE, POST and NotifyProxy, drawn from the same PRNG) against the proxy started by generatecmd.StartProxy on a real TCP port, one browser per connection-age class (quick: about 1, 6, 12, 22 and 31 s old when the closing broadcasts are issued; thorough: up to 2.5 min), run in child processes of their own concurrently with the histories; every scenario is distinct and non-trivial"
 	c.Trusted = append(c.Trusted,
 		"model coq/model/Sse.v: critical sections of ServeHTTP are atomic steps (straight-line, non-blocking code under the mutex); Go channel/select/mutex semantics as modelled (unbuffered rendezvous, send on closed channel panics, close of closed channel panics)",
 		"extraction: ExtrOcamlBasic only; ocaml/driver.ml",
@@ -514,14 +514,14 @@ func Run(c *core.Ctx) {
 	c.Extra["child_build_s"] = time.Since(t0).Seconds()
 
 	// ---- end-to-end scenarios (long-lived connections): started now, in processes of their own, judged at the end ----
-	quickAges := [][2]int{{500, 2000}, {5500, 8500}, {10500, 14500}, {20000, 21500}}
+	quickAges := [][2]int{{500, 2000}, {5500, 8500}, {10500, 14500}, {20500, 25000}, {30500, 32000}}
 	erng := c.Rng.Fork()
 	var e2eHs []hist
 	if c.Replay == "" {
-		e2eHs = append(e2eHs, hist{ID: 1, Kind: "e2e", E2E: ptr(genE2E(erng, 21500, quickAges)), family: "end to end through StartProxy"})
+		e2eHs = append(e2eHs, hist{ID: 1, Kind: "e2e", E2E: ptr(genE2E(erng, 32000, quickAges)), family: "end to end through StartProxy"})
 		if !c.Quick() {
 			e2eHs = append(e2eHs,
-				hist{ID: 2, Kind: "e2e", E2E: ptr(genE2E(erng, 21500, quickAges)), family: "end to end through StartProxy"},
+				hist{ID: 2, Kind: "e2e", E2E: ptr(genE2E(erng, 32000, quickAges)), family: "end to end through StartProxy"},
 				hist{ID: 3, Kind: "e2e", E2E: ptr(genE2E(erng, 75000, append(append([][2]int{}, quickAges...), [2]int{30000, 45000}, [2]int{62000, 75000}))), family: "end to end through StartProxy"},
 				hist{ID: 4, Kind: "e2e", E2E: ptr(genE2E(erng, 150000, append(append([][2]int{}, quickAges...), [2]int{31000, 59000}, [2]int{61000, 119000}, [2]int{121000, 150000}))), family: "end to end through StartProxy"})
 		}
@@ -547,6 +547,7 @@ func Run(c *core.Ctx) {
 		e2eLimit = max(e2eLimit, time.Duration(h.E2E.durationMs()+h.E2E.SettleMs+45000)*time.Millisecond)
 	}
 	e2eProcs := startE2E(bin, e2eHs)
+	contractProc := startE2E(bin, []hist{{ID: 1, Kind: "contract"}})[0]
 	c.Extra["first_e2e_scenario"] = ""
 	if len(e2eHs) > 0 {
 		c.Extra["first_e2e_scenario"] = e2eHs[0].E2E.String()
@@ -1013,7 +1014,7 @@ func Run(c *core.Ctx) {
 			// nothing else explains it: the implementation did not make a step the model says is enabled
 			c.Fail("tie", "the handler settles after every operation", "", in, unsettledNote)
 		}
-		if i%97 == 0 && len(c.Samples) < 10 {
+		if i%97 == 0 && len(c.Samples) < 9 {
 			c.Sample(map[string]any{"schedule": h.String(), "observed": obsString(r.Obs), "send_max_us": r.SendMaxNs / 1000, "goroutines": []int{r.G0, r.G1}})
 		}
 	}
@@ -1071,6 +1072,7 @@ func Run(c *core.Ctx) {
 	c.Extra["stress_runs"] = nS
 	c.Oblige("correspondence", "stress (proxy.Handler behind httptest.Server, real HTTP clients cancelling and reading slowly): every client connected throughout received every broadcast exactly once, nothing spurious, goroutines back to baseline", stressOK && nS > 0, "")
 	judgeE2E(c, e2eProcs, e2eLimit)
+	judgeContract(c, contractProc)
 	missing := 0
 	for _, h := range hs {
 		if _, ok := results[h.ID]; !ok {
